@@ -203,3 +203,8 @@ pub fn ref_core_verify(sig_in_g1: bool, pk: &[u8], sig: &[u8], msg: &[u8], dst: 
         r::pairing(&p, &h) == r::pairing(&r::G1Affine::generator(), &s)
     }
 }
+
+/// compressed public-key-group point of a dlog, by group assignment (no registration side effect)
+pub fn sc_enc_pk(impl_g1: bool, a: &RScalar) -> Vec<u8> {
+    if impl_g1 { enc_g2(a) } else { enc_g1(a) }
+}
